@@ -44,6 +44,7 @@ func (m *Map[K, V]) LoadOrStore(key K, value V) (actual V, loaded bool) {
 	if ok {
 		return v, true
 	}
+	verifHook("LoadOrStore.gap", m)
 	m.mutex.Lock()
 	m.data[key] = value
 	m.mutex.Unlock()
@@ -108,6 +109,7 @@ func (m *Map[K, V]) Range(f func(key K, value V) bool) {
 	defer m.mutex.RUnlock()
 	for key, value := range m.data {
 		m.mutex.RUnlock()
+		verifHook("Range.unlocked", m)
 		ok := f(key, value)
 		m.mutex.RLock()
 		if !ok {
